@@ -53,7 +53,8 @@ def gen_case(rng):
             src.append("y%d.onNote(%s)" % (no, ",".join(map(str, vs)))); sx.append("(cconnote %d (%s))" % (no, " ".join(map(str, vs)))); nres += 1
         elif x < 0.90:
             no = rng.choice([1, 7, 10, 11]); tri = []
-            for _ in range(rng.randrange(1, 4)): tri += [rng.randint(0, 127), rng.randint(0, 127), rng.choice([4, 8, 24, 48, 96, 97, 13])]
+            # (bounds outside 0..127 too: the samples are clamped, not the end points — the slope is the one asked for)
+            for _ in range(rng.randrange(1, 4)): tri += [rng.choice([rng.randint(0, 127), rng.randint(0, 127), -127, -20, 200, 300]), rng.choice([rng.randint(0, 127), rng.randint(0, 127), 255, 140, -64]), rng.choice([4, 8, 24, 48, 96, 97, 13])]
             form = rng.choice(["y%d.onTime(%s)", "y%d.T(%s)"])
             src.append(form % (no, ",".join(map(str, tri)))); sx.append("(ccontime %d (%s))" % (no, " ".join(map(str, tri)))); nres += 1; interp = True
         elif x < 0.93:
